@@ -14,6 +14,7 @@ import (
 
 type fixBlock struct {
 	Era   string
+	Byron bool
 	Type  uint
 	Data  []byte
 	Hash  []byte
@@ -38,6 +39,11 @@ func fixBlocks() []fixBlock {
 			{"alonzo", ledger.BlockTypeAlonzo, "internal/testdata/alonzo_block.hex"},
 			{"babbage", ledger.BlockTypeBabbage, "internal/testdata/babbage_block.hex"},
 			{"conway", ledger.BlockTypeConway, "internal/testdata/conway_block.hex"},
+			// appended later: the first seven keep their positions
+			{"dijkstra", ledger.BlockTypeDijkstra, "ledger/dijkstra/testdata/musashi_dijkstra_block.hex"},
+			{"shelley-testnet", ledger.BlockTypeShelley, "protocol/chainsync/testdata/shelley_block_testnet_02b1c561715da9e540411123a6135ee319b02f60b9a11a603d3305556c04329f.hex"},
+			{"byron-ebb", ledger.BlockTypeByronEbb, "protocol/chainsync/testdata/byron_ebb_testnet_8f8602837f7c6f8b8867dd1cbc1842cf51a27eaed2c70ef48325d00f8efb320f.hex"},
+			{"byron-testnet", ledger.BlockTypeByronMain, "protocol/chainsync/testdata/byron_main_block_testnet_f38aa5e8cf0b47d1ffa8b2385aa2d43882282db2ffd5ac0e3dadec1a6f2ecf08.hex"},
 		} {
 			data := fixtureHex(f.file)
 			b, err := ledger.NewBlockFromCbor(f.typ, data, lcommon.VerifyConfig{SkipBodyHashValidation: true})
@@ -45,7 +51,7 @@ func fixBlocks() []fixBlock {
 				panic("harness: fixture block " + f.file + " does not decode: " + err.Error())
 			}
 			h := b.Hash().Bytes()
-			fixBlocksList = append(fixBlocksList, fixBlock{Era: f.era, Type: f.typ, Data: data, Hash: h, Slot: b.SlotNumber(), Point: pcommon.NewPoint(b.SlotNumber(), h)})
+			fixBlocksList = append(fixBlocksList, fixBlock{Era: f.era, Byron: f.typ == ledger.BlockTypeByronMain || f.typ == ledger.BlockTypeByronEbb, Type: f.typ, Data: data, Hash: h, Slot: b.SlotNumber(), Point: pcommon.NewPoint(b.SlotNumber(), h)})
 		}
 	})
 	return fixBlocksList
